@@ -122,13 +122,13 @@ classes = [
  ('F06-paren-literal-then-text', ALLTREE, 'repair', {'repair': 'paren_literal_then_text'},
   'parentheses are removed around a literal that is directly followed by text or a dot: `#(1)em` -> `#1em`, `#(1)x` -> `#1x` (syntax error), `#((1.).a)` -> `#(1..a)`',
   [repro('C04', 'output-parses', '#(1)x', cfg(0)), repro('C01', 'N(parse(x))==N(parse(y))', '#(1)em', cfg(0))]),
- ('F08-eol-blanks-inside-literals', ['C01', 'C02', 'C03', 'C06', 'C08', 'C10', 'C13'], 'repair', {'repair': 'eol_blank_in_literal'},
+ ('F08-eol-blanks-inside-literals', ['C01', 'C02', 'C03', 'C08', 'C10', 'C13'], 'repair', {'repair': 'eol_blank_in_literal'},
   'blanks before a line break inside a multi-line string / raw literal are stripped by the post-pass (pinned by upstream snapshots of 5 fixtures, so not repairable without editing tests)',
   [repro('C10', 'literal-stream', '#"a  \n  b"', cfg(0)), repro('C10', 'literal-stream', '```typ\n#link() \n```', cfg(0))]),
- ('F08b-cr-inside-literals', ['C01', 'C02', 'C10', 'C06', 'C03', 'C13', 'C09'], 'repair', {'repair': 'cr_in_literal'},
+ ('F08b-cr-inside-literals', ['C01', 'C02', 'C10', 'C03', 'C13', 'C09'], 'repair', {'repair': 'cr_in_literal'},
   'CR / CRLF inside a multi-line string, raw literal or block comment is rewritten to LF by the line-based post-pass',
   [repro('C10', 'literal-stream', '#"a\r\nb"', cfg(0))]),
- ('F09-non-ascii-blank-at-line-end', ['C01', 'C02', 'C03', 'C08', 'C10', 'C13', 'C06'], 'repair', {'repair': 'nonascii_eol_blank'},
+ ('F09-non-ascii-blank-at-line-end', ['C01', 'C02', 'C03', 'C08', 'C10', 'C13'], 'repair', {'repair': 'nonascii_eol_blank'},
   'a line ending in NBSP / U+3000 (text for Typst) loses it: trim_end is Unicode-wide. C11 demands the opposite for the same input, so exactly one of C08/C11 can hold there; the tree satisfies C11',
   [repro('C08', 'prose-lines', 'text　', cfg(0))]),
  ('F15-comment-only-content-block', ['C01', 'C02', 'C03', 'C08', 'C13'], 'repair', {'repair': 'comment_only_content'},
